@@ -33,7 +33,8 @@ def build(case, initialize=True):
     for i in range(case['n']):
         k = kinds.get(i)
         if k is None:
-            b.node[i] = NamedNode('N%02d' % i)
+            # 'names': several distinct node objects may carry one name (NamedNode identity is the object, not the name)
+            b.node[i] = NamedNode((case.get('names') or {}).get(str(i), 'N%02d' % i))
         elif k[0] == 'dv':
             d = k[1]
             if d[0] == 'disc':
